@@ -36,6 +36,7 @@ class Ctx:
         self.rules = {}            # rule id -> {'text':..., 'n':0, 'failed':0}
         self.analysed = {'units': set(), 'functions': set(), 'call_sites': 0, 'configs': []}
         self.notes = []
+        self.floors = []
         self.selftest = {}
         self.trusted = ['clang 14 front end + CFG builder', 'jlsx exporter', 'python rule engines (jlsverif)',
                         'tables/exceptions.json']
@@ -65,6 +66,11 @@ class Ctx:
         })
         return ok
 
+    def floor(self, what, n, minimum):
+        """Instance floor confirmed by hand: a miss is 'analysis broken' (exit 2),
+        reported only when no obligation failed (DESIGN 2.4)."""
+        self.floors.append((what, n, minimum))
+
     def note(self, s):
         self.notes.append(s)
 
@@ -90,7 +96,7 @@ class Ctx:
             else:
                 violations.append(o)
         # vacuity / floors: only when no obligation failed
-        broken = []
+        broken = ['%s: %d instances, confirmed floor is %d' % f for f in self.floors if f[1] < f[2]]
         for rid, r in self.rules.items():
             fl = floors.get(rid)
             if fl is not None and r['n'] < fl:
